@@ -54,7 +54,7 @@ def split_steps(w):
 def make_holdings_observer():
     def obs(w, label):
         sim = w.runner.simulator
-        w.rec("obs", label, {a.agent_id: (a.get_cash_amount(), {m: a.get_asset_volume(m) for m in a.asset_volumes})
+        w.rec("hold", label, {a.agent_id: (a.get_cash_amount(), {m: a.get_asset_volume(m) for m in a.asset_volumes})
                              for a in sim.agents})
     return obs
 
@@ -102,7 +102,7 @@ def acc_C05(w):
                 w.wit.inc("round_with_4_fills")
             if e[2]:
                 w.wit.inc("round_with_fills")
-        elif e[0] == "obs":
+        elif e[0] == "hold":
             nobs += 1
             compare(e[2], e[1])
         elif e[0] == "cb_exe":
